@@ -213,6 +213,39 @@ def clean_case_st(draw):
     return (kind, order, pc, draw(GH.cuts_st()))
 
 
+# ---- backlog: many messages enqueued while nothing consumes the queue -------------------------------------------------------------
+
+
+def backlog_oracle(case) -> Info:
+    kind_of_stream, n, seed, chunk = case
+    if kind_of_stream == "hdlc":
+        msgs = resync.clean_frames(n, False, False, seed, min_info=2, max_info=4)
+        stream, _ = resync.frames_tail(msgs, False, seed)
+        sent_payloads = [ref_fields(f)["payload"] for f in msgs]
+        spec = (("H", 0, 0), ("P",))
+    else:
+        msgs = [GP.add_end(b"/ABC5x\r\n" + f"0-0:96.1.9({i:06d})\r\n".encode(), "none") for i in range(n)]
+        stream = b"".join(msgs)
+        sent_payloads = [m[m.index(b"\n") + 1 : GP.end_line_pos(m)] for m in msgs]
+        spec = (("P",), ("H", 0, 0))
+    chunks = [stream] if chunk == 0 else [stream[i : i + chunk] for i in range(0, len(stream), chunk)]
+    _ensure_loop()
+    for kind in ("payload", "message"):
+        q = asyncio.Queue()
+        cls = meter_connection.SmartMeterMessagePayloadProtocol if kind == "payload" else meter_connection.SmartMeterMessageProtocol
+        proto = guarded(cls, q, make_readers(spec), what=cls.__name__)
+        for ch in chunks:
+            guarded(proto.data_received, ch, what=f"{cls.__name__}.data_received")
+        items = drain(q)  # only now: nothing consumed the queue while the messages arrived
+        got = items if kind == "payload" else [m.payload for m in items]
+        if got != sent_payloads:
+            fail(f"{kind} protocol: {n} {kind_of_stream} messages arrived while the queue was not consumed; {len(got)} items on the queue afterwards (first sent payload present: {bool(got) and got[0] == sent_payloads[0]})", sig=f"backlog-{kind}")
+    return Info(nontrivial=n > 64, classes=(f"backlog:{kind_of_stream}", "n>256" if n > 256 else "n<=256"))
+
+
+backlog_st = st.tuples(st.sampled_from(["hdlc", "p1"]), st.sampled_from([1, 64, 255, 256, 257, 300, 1000, 1025]) | st.integers(1, 1500), st.integers(0, 10**6), st.sampled_from([0, 0, 7, 100, 1000, 4096]))
+
+
 def build() -> Check:
     return Check(
         pid="C13",
@@ -227,7 +260,8 @@ def build() -> Check:
             "that became valid in chunk k. Non-trivial = >=2 candidates and selection at chunk >=1, or an invalid message precedes the "
             "first valid one in the selection chunk. clean: C02-domain HDLC streams and C05-domain P1 streams with candidate orders "
             "[HDLC,P1] and [P1,HDLC] (and the single matching reader): the payload queue equals every sent message's non-empty payload, "
-            "the message queue every sent message."
+            "the message queue every sent message. backlog: 1..1500 small clean messages (boundaries 255/256/257/1025 forced) delivered in one or "
+            "several calls while nothing consumes the queue - afterwards the queue must hold every one of them, in order."
         ),
         assumptions=[
             "If several candidates become valid in the same chunk, either may be the selected one (the property does not fix the tie-break).",
@@ -236,5 +270,6 @@ def build() -> Check:
         clauses=[
             HypClause("general", general_case_st, general_oracle, quick=5000, thorough=150000),
             HypClause("clean", clean_case_st, clean_oracle, quick=3000, thorough=60000),
+            HypClause("backlog", backlog_st, backlog_oracle, quick=150, thorough=3000, doc="1..1500 small messages enqueued before the queue is read"),
         ],
     )
